@@ -9,6 +9,7 @@ from checks._c17_common import Env
 from checks import _c17_conv as CV
 from checks import _c17_other as OT
 from checks import _c17_order as OR
+from checks import _c17_global as GL
 
 PROP = "C17"
 LEVEL = "model_checking"
@@ -27,7 +28,15 @@ RULE = (
     "suffix). State carried between calls: every case is evaluated in a process that has already run other "
     "cases with other arguments and is compared with a from-scratch oracle; subset, error-rate and chunk are "
     "additionally run after a call with different arguments and compared with the same call in a fresh "
-    "interpreter. Every command with --num-workers is run serially and "
+    "interpreter. LATE TIME STAMPS: ctm and TextGrid round trips with frame shifts 0.0625 ms / 1 ms and frame "
+    "indices just above 2**25, around 8e7 and above 2**31 (times to within one frame, as everywhere), token ids "
+    "and alignment labels at 2**24+1 and 2**31+-1. ALIAS SPELLINGS: --file-suffix '' on cases of every family, "
+    "replace/ignore lists that overlap (a replace source or target that is also ignored, a swap), batch sizes "
+    "below / equal to / above the corpus size. GLOBAL STATE: ~36 cases of every family (and all late-time-stamp "
+    "cases) are evaluated with the stock default dtype and under torch.set_default_dtype(float64) in the "
+    "parent: all observations must coincide, and under float64 the serial run must equal every worker schedule, "
+    "the virtual spawn pool running its work with the default dtype reset to float32 as a fresh interpreter "
+    "would (thorough: also the real spawn pool below a float64 parent). Every command with --num-workers is run serially and "
     "then with 2 workers on an in-process pool/loader for --mp-chunk-size in {1,2} under EVERY completion order "
     "of the chunks (and every interleaving of DataLoader worker fetches); each schedule must reproduce the "
     "serial files and printed text. One execution = one (command, corpus, flags, schedule); distinctness is "
@@ -54,6 +63,10 @@ ASSUMPTIONS = [
     "utterance order: 'by id' (python string order of the ids, as the subset command documents) is also required "
     "of the per-utterance error-rate listing and of the trn written from a token directory; seeded --rand-* "
     "selections are only required to be the same for every file suffix, not to match a particular generator",
+    "process-global state explored: torch's default dtype only (float32 / float64); DataLoader workers are forked "
+    "on this platform and inherit it, spawn-pool workers do not",
+    "the TextGrid header's end time must be within one frame of the number of frames (--feat-dir) or of the "
+    "last boundary (--infer)",
     "ctm writer sorts its rows by (wave file, channel, start) itself and MVN/moment sums are order-free, so the "
     "prefix-id menus are not repeated there",
 ]
@@ -67,8 +80,9 @@ FAMILIES = {
     "er": (OT.cases_er, OT.eval_er, 12),
     "sub": (OT.cases_sub, OT.eval_sub, 8),
     "stat": (OT.cases_stat, OT.eval_stat, 8),
-    "ord": (OR.cases_ord, OR.eval_ord, 3),
+    "ord": (OR.cases_ord, OR.eval_ord, 4),
 }
+FAMILIES["f64"] = GL.make(FAMILIES) + (2,)
 
 
 def shards(tier, seed):
